@@ -911,12 +911,32 @@ func (c *Ctx) callLen(f *FA, call *ssa.Call) (LF, bool) {
 	for _, e := range cs.External {
 		if e == "iface:hash.Hash.Sum" && len(cs.Mod) == 0 {
 			// Sum(p) appends Size() octets; Size is between the smallest and largest hash the module constructs
-			lo, hi := c.moduleHashSizeRange()
-			sz := f.atomLF("hashsize:"+f.canon(call.Call.Value), "Size("+f.canon(call.Call.Value)+")", lo, hi)
-			return f.SliceLen(call.Call.Args[0]).add(sz, 1), true
+			return f.SliceLen(call.Call.Args[0]).add(c.hashSizeLF(f, call.Call.Value), 1), true
 		}
 	}
 	return LF{}, false
+}
+
+// hashSizeLF: Size() of a hash object: the constant of its constructor when the object is made right here
+// (hmac.New(sha256.New, key), sha256.New()), else one atom per object between the smallest and the largest hash
+// the module constructs.
+func (c *Ctx) hashSizeLF(f *FA, obj ssa.Value) LF {
+	if call, ok := obj.(*ssa.Call); ok {
+		if g := call.Call.StaticCallee(); g != nil {
+			if g.String() == "crypto/hmac.New" && len(call.Call.Args) == 2 {
+				if h, ok := call.Call.Args[0].(*ssa.Function); ok {
+					if s, ok := hashSizes[h.String()]; ok {
+						return konst(s)
+					}
+				}
+			}
+			if s, ok := hashSizes[g.String()]; ok {
+				return konst(s)
+			}
+		}
+	}
+	lo, hi := c.moduleHashSizeRange()
+	return f.atomLF("hashsize:"+f.canon(obj), "Size("+f.canon(obj)+")", lo, hi)
 }
 
 func (c *Ctx) moduleHashSizeRange() (int64, int64) {
